@@ -328,10 +328,17 @@ class Agent(dbus.service.Object):
         self._logger.info('Connecting')
         sock = conv.make_socket()
 
+        try:
+            ipaddress.ip_address(address)
+            peer_name = str(conv.peer_address)
+        except ValueError:
+            # A host name, which is the reference for the peer's DNS-ID
+            peer_name = str(address)
+
         hdl = self._bind_handler(
             config=self._config,
             sock=sock,
-            toaddr=(str(conv.peer_address), conv.peer_port)
+            toaddr=(peer_name, conv.peer_port)
         )
         hdl.start()
 
